@@ -753,15 +753,11 @@ func checkMirrorLoops(c *Ctx, r *goan.Rel) {
 			if !ok {
 				return true
 			}
-			kid, ok := rs.Key.(*ast.Ident)
-			if !ok || kid.Name == "_" {
+			collX, kobj := keyRange(info, fd.Body, rs)
+			if collX == nil || kobj == nil {
 				return true
 			}
-			if _, isMap := info.TypeOf(rs.X).Underlying().(*types.Map); !isMap {
-				return true
-			}
-			kobj := info.Defs[kid]
-			sRange := r.SideOf(rs.X)
+			sRange := r.SideOf(collX)
 			if sRange != goan.S1 && sRange != goan.S2 {
 				return true
 			}
@@ -801,7 +797,7 @@ func checkMirrorLoops(c *Ctx, r *goan.Rel) {
 				if !missHandled {
 					return true
 				}
-				keys[sRange][r.TwinKeyResolved(rs.X, fd.Body)] = goan.ExprString(rs.X)
+				keys[sRange][r.TwinKeyResolved(collX, fd.Body)] = goan.ExprString(collX)
 				return true
 			})
 			return true
